@@ -739,6 +739,25 @@ func (g *gen) opSysTransfer() bool {
 	return true
 }
 
+// opHandOverFresh: the create role of a token NOBODY has created anything of yet (counter 0, travels as an empty argument)
+// is handed over, preferably to another shard, and the message delivered at once: the continuation must be accepted.
+func (g *gen) opHandOverFresh() bool {
+	tok := g.newTokenID("")
+	a := g.pick(g.accounts)
+	g.sft = append(g.sft, tok)
+	if !g.setRoles(a, tok, nftRoles...) {
+		return false
+	}
+	b := g.otherThan(a, func(x []byte) bool { return g.shardOf(x) != g.shardOf(a) })
+	if b == nil {
+		b = g.otherThan(a, nil)
+	}
+	g.do(g.sys(oracle.FnHandOver, a, tok, b))
+	g.drainHandOvers()
+	g.do(g.user(oracle.FnNFTCreate, b, b, bigGas, g.createArgs(tok, 1, 1)...))
+	return true
+}
+
 // opPayableMatrix: a destination the payability oracle refuses, then PLAIN transfers to it (argument count exactly at the
 // minimum, direct / asynchronous call, ordinary caller) with and without the return-after-error flag, for the three transfer
 // functions, fungible and NFT items, same shard and (delivered at once) cross shard: none may be credited.
